@@ -1,3 +1,3 @@
 SPECIFICATION Spec
-INVARIANTS DriverClaimPipe PipeInv ScalarInv CmtInv BigPipeInv BigLineInv TextRtInv
+INVARIANTS DriverClaimPipe PipeInv ScalarInv CmtInv BigPipeInv BigLineInv TextRtInv TextTcInv
 CHECK_DEADLOCK FALSE
